@@ -457,17 +457,36 @@ def run_check(mod, tier, seed, jobs, logpath):
         g = (v["oracle"], v.get("site"))
         if g not in groups or case_size(v) < case_size(groups[g]):
             groups[g] = v
+    # further candidates per group, from other work units: a violation caused by state that leaked in from an earlier unit of
+    # the same worker does not reproduce from its own unit alone, while the same oracle firing in a self-contained unit does
+    alternates = {}
+    per_unit = collections.Counter()
+    for v in unmatched:
+        g = (v["oracle"], v.get("site"))
+        alternates.setdefault(g, {})
+        u = v.get("_unit")
+        per_unit[(g, u)] += 1
+        if u not in alternates[g] or case_size(v) < case_size(alternates[g][u]):
+            alternates[g][u] = v
     confirmed = []
     diverged = []
     for g, v in sorted(groups.items(), key=lambda kv: case_size(kv[1]))[:8]:
-        path = write_replay(pid, v, units[v["_unit"]] if "_unit" in v else None)
-        env = dict(os.environ, PYTHONHASHSEED="0")
-        p = subprocess.run([PY, "-m", "bbmc.runner", pid, "--replay", path], cwd=ROOT, env=env,
-                           capture_output=True, text=True, timeout=900)
-        if p.returncode == 1:
-            confirmed.append((v, path))
-        else:
-            diverged.append((v, path, p.stdout[-500:] + p.stderr[-500:]))
+        # the smallest case first, then the smallest case of each of the three units in which this oracle fired most often
+        busiest = sorted(alternates[g], key=lambda u: -per_unit[(g, u)])[:3]
+        cands = [v] + [alternates[g][u] for u in busiest if alternates[g][u] is not v]
+        last = None
+        for w in cands:
+            path = write_replay(pid, w, units[w["_unit"]] if "_unit" in w else None)
+            env = dict(os.environ, PYTHONHASHSEED="0")
+            p = subprocess.run([PY, "-m", "bbmc.runner", pid, "--replay", path], cwd=ROOT, env=env,
+                               capture_output=True, text=True, timeout=900)
+            if p.returncode == 1:
+                confirmed.append((w, path))
+                last = None
+                break
+            last = (w, path, p.stdout[-500:] + p.stderr[-500:])
+        if last is not None:
+            diverged.append(last)
 
     wall = time.time() - t0
     exhaustive = not agg["caps"] and not agg["hangs"]
